@@ -145,7 +145,9 @@ ALL = {
                   'structures through the real group-finding parser, compared with a reference expander',
         text='Bounded model checking: 44 structures (thorough 400, seeded) x 576 instances each, TOLERANT and STRICT: every parsed element is a declared '
              'child of its parent, flattening gives the input sequence, find_groups=False encodes identically, and for structures '
-             'with unique segment names the tree equals the reference tree and has no structural validation error.',
+             'with unique segment names the tree equals the reference tree and has no structural validation error. Determinism: for ALL '
+             '3,904 ordered pairs of versions that define a same-named group of one message structure with different segments, the second '
+             'version parsed after the first in one forked process gives the tree it gives in a fresh process.',
         note='Instances: first 6 optional children, up to 2 repeated groups whose first member is required and non-repeatable.',
         ref='DESIGN.md §3 C08'),
     'C11': dict(
@@ -186,7 +188,8 @@ ALL = {
                   'body bytes, first-chunk size, truncation point, timeout step, routing case, raw frames)',
         text='Bounded model checking of framing, extraction, routing and failure handling on the sequential path: every 7-bit body up '
              'to 3 (5) bytes, every split of the first recv, every truncation/timeout point of a frame, 8 routing cases with and '
-             'without ERR handler, every raw frame up to 5 (6) bytes over {SB,EB,CR,M,|,0xC3}. N simultaneous clients and real TCP '
+             'without ERR handler, every raw frame up to 5 (6) bytes over {SB,EB,CR,M,|,0xC3} (a handler runs only when the framed bytes '
+             'decode, and is given exactly the framed text). N simultaneous clients and real TCP '
              'timing are NOT covered (no encoding of threads/sockets in this technique).',
         note='Stub socket is the environment model (listed in evidence). Concurrency part of C16 is outside the claim.',
         ref='DESIGN.md §3 C16'),
@@ -202,7 +205,7 @@ ALL = {
         text='Bounded model checking: profiles synthesised by one edit (identity, tighten, require, forbid, retype, retype inside a '
              'repeated group, retype of one subcomponent) from 41 (131) standard structures x 5 creation paths (parse, traversal, add_*, '
              'parse without group-finding, whole-message assignment) and, for the subcomponent edit, 6 ways of creating the child x '
-             'both levels: children take datatype/cardinality from the profile, validate() follows the profile where it differs '
+             'both levels: children take datatype/cardinality from the profile (also when the retyped child is written with a datatype object), validate() follows the profile where it differs '
              'and the identity profile changes nothing; MessageProfileNotFound / LegacyMessageProfile; lower-case names; shipped '
              'iti_21 / old_pharm_h4 profiles.',
         note='One edit per profile; edits of top-level children, of one field of a segment (also inside a repeated group) or of one '
